@@ -213,6 +213,10 @@ def run(case):
         if case["floats"]:
             ulist = list(units)
         mixed = case["floats"] and case["alt_units"]
+        # bare numbers with `units=` given in *other* convertible units than the WCS's own (half of the mixed cases)
+        alt_ulist = mixed and case["wseed"] % 2 == 0
+        if alt_ulist:
+            ulist = [ALT_UNITS[un][i % len(ALT_UNITS[un])] if un in ALT_UNITS else un for i, un in enumerate(units)]
         for world, isnone in zip(val_points, none_world):
             pt = []
             as_quantity = (not case["floats"]) or (mixed and len(pts) % 2 == 1)
@@ -226,10 +230,12 @@ def run(case):
                     q = (v * u.Unit(un)).to(alt)
                 else:
                     q = v * u.Unit(un)
-                pt.append(q if as_quantity else float(q.to_value(un)))
+                pt.append(q if as_quantity else float(q.to_value(ulist[i] if alt_ulist else un)))
             pts.append(pt)
         if mixed:
             tags.append("mixed-unit-spellings")
+        if alt_ulist:
+            tags.append("floats-with-other-units")
         return pts, ulist
 
     def objects_form():
